@@ -1,5 +1,5 @@
 """C05 — FSQ and LFQ quantize each scalar to the level the papers prescribe."""
-import math, os, re, struct, subprocess, time
+import copy, math, os, re, struct, subprocess, time
 from fractions import Fraction
 from vlib import core
 from vlib.core import qlit
@@ -120,7 +120,7 @@ def correspond(ctx, scale):
     rng = ctx.rng
     failures, samples = [], []
     ev = nt = 0
-    dist = {'fsq_samples': 0, 'fsq_sym_samples': 0, 'saturated_inputs': 0, 'interval_goals': 0, 'lfq_samples': 0, 'metamorphic': 0, 'monotone_pairs': 0}
+    dist = {'fsq_samples': 0, 'fsq_sym_samples': 0, 'saturated_inputs': 0, 'interval_goals': 0, 'lfq_samples': 0, 'metamorphic': 0, 'monotone_pairs': 0, 'module_cast_sweeps': 0}
     Ls = list(range(2, 17)) + ([26, 33] if ctx.thorough else [])
     nrand = (6 if not ctx.thorough else 60) * scale
     goals_by_shard = {}
@@ -136,6 +136,16 @@ def correspond(ctx, scale):
             zt = torch.tensor(zs, dtype=torch.float32).reshape(1, -1, 1)
             with torch.no_grad():
                 out, idx = q(zt)
+            # the scalar map is a function of the float32 input alone: a module cast to another precision (its persistent state is integer
+            # level data only) must quantize float32 inputs identically
+            for cast in ('half', 'bfloat16', 'double'):
+                q2 = getattr(copy.deepcopy(q), cast)()
+                with torch.no_grad():
+                    out2, idx2 = q2(zt)
+                dist['module_cast_sweeps'] += 1
+                if not (torch.equal(idx2, idx) and torch.equal(out2.float(), out.float())):
+                    nbad = int((idx2 != idx).sum())
+                    failures.append({'key': f'fsq:module-cast:{cast}', 'what': f'FSQ([{L}], sym={sym}).{cast}() quantizes {nbad} of {idx.numel()} float32 inputs to a different level than the float32 module', 'case': dict(L=L, sym=sym, cast=cast)})
             out = out.reshape(-1)
             idx = idx.reshape(-1).tolist()
             hw = L // 2
